@@ -55,8 +55,8 @@ class Sandbox:
 
     # ---- independent storage codec ----------------------------------------------------------------------------
     def write_storage(self, spec, dest):
-        jf = self.path("spec-%d.json" % (abs(hash(dest)) % 100000))
-        with open(jf, "w") as f:
+        fd, jf = tempfile.mkstemp(prefix="spec-", suffix=".json", dir=self.root)     # unique: callers run in thread pools
+        with os.fdopen(fd, "w") as f:
             json.dump(spec, f)
         p = subprocess.run([build.VSBH, "storage-write", jf, dest], stdout=subprocess.PIPE, stderr=subprocess.PIPE, text=True)
         os.remove(jf)
